@@ -776,6 +776,26 @@ def _run_config(h, nkeys, nsteps, nlift):
                                     "info_with_lerax_initial_data": {k: want[3][k] for k in diffk[:6]},
                                     "info_with_reset_kinematics": {k: want1[3][k] for k in diffk[:6]}, **wit})
 
+            # ------------ M2p: the same formula comparison on *planted* data: the post-step generalised
+            # velocities scaled by 4 / 25 / 200, identically in what Gymnasium's step() sees and in what lerax's
+            # formulas see.  Random rollouts never reach |qvel| beyond ~20, so velocity-dependent clauses
+            # (health ranges, velocity clips, finiteness tests) are otherwise never exercised near their limits.
+            if not lifted and (t % 3 == 0):
+                kv = float([4.0, 25.0, 200.0][(t // 3 + ki) % 3])
+                after_p = dict(after)
+                after_p["qvel"] = np.asarray(after["qvel"], np.float64) * kv
+                want_p = _gym_formula_step(h, before, after_p, a)
+                vec_p = jnp.asarray(_pack_np(after_p, h.plan))
+                pobs, prew, pterm, pinfo = fns["judge"](env, s, jnp.asarray(a), ns, jnp.asarray(vec_b), vec_p, jkey)
+                got_p = (np.asarray(pobs, np.float64), float(prew), bool(pterm), {k: np.asarray(v, np.float64) for k, v in pinfo.items()})
+                near_tie = name in _TERMINATING and _ambiguous_boundary(h, before, after_p, a)
+                if not near_tie and np.all(np.isfinite(want_p[0])):
+                    ctx.case({"env": name, "config": h.label, "key": kidx, "step": t, "monitor": "formula-planted-velocity", "scale": kv},
+                             nontrivial=True, cls=f"formula-planted-velocity/x{int(kv)}")
+                    ctx.monitor("planted_velocity_terminated_true" if want_p[2] else "planted_velocity_terminated_false")
+                    _judge_outputs(h, "formula_planted", got_p, want_p, (1e-4 * kv, 1e-5, 0.0),
+                                   {**wit, "planted_qvel_scale": kv, "planted_qvel": after_p["qvel"]}, _FKEYS, fields=after_p)
+
             # ------------ M3 + M2r: a real Gymnasium step from the same (qpos, qvel, action)
             ncon, nefc, deepest = _contact_trace(h, qpos, qvel, a)
             h.g_reset_to(h.gd, qpos, qvel)
